@@ -18,7 +18,8 @@ import (
 )
 
 func c14Stampede(r *Result, rng *rand.Rand, rounds int) {
-	for i := 0; i < rounds && !expired(); i++ {
+	hangs := 0
+	for i := 0; i < rounds && !expired() && hangs < 3; i++ {
 		n := 4 + rng.Intn(9)
 		nq := 1 + rng.Intn(2)
 		ops := make([]c14Op, n)
@@ -47,6 +48,7 @@ func c14Stampede(r *Result, rng *rand.Rand, rounds int) {
 		case <-done:
 		case <-time.After(5 * time.Second):
 			r.Violate(Violation{Kind: "e2e", Suite: "stampede", Input: in, Observed: "goroutines did not finish", Expected: "no deadlock"})
+			hangs++
 			continue
 		}
 		r.Case("stampede", fmt.Sprint(i), n >= 2)
